@@ -231,6 +231,10 @@ func runC19(tier string) int {
 			continue
 		}
 		violations++
+		if violations > 6 {
+			// the first few are minimised and reported; the count is in the evidence
+			continue
+		}
 		v := c19Minimise(tw, seed, i, ins[i], byInput[i], sessions)
 		rep.add(v)
 	}
@@ -365,7 +369,8 @@ func c19Minimise(tw *toolWorld, seed uint64, idx int, in toolInput, sigs map[str
 		}
 		lines := strings.Split(string(in.Grammar), "\n")
 		budget := 60
-		for i := 0; i < len(lines) && budget > 0; {
+		deadline := time.Now().Add(45 * time.Second)
+		for i := 0; i < len(lines) && budget > 0 && time.Now().Before(deadline); {
 			cand := append(append([]string(nil), lines[:i]...), lines[i+1:]...)
 			budget--
 			trial := &c19Replay{Input: rp.Input, Sessions: [][]tooldriver.Case{{rp.Sessions[0][0]}, {rp.Sessions[1][0]}}, Target: rp.Target}
